@@ -45,6 +45,13 @@ def host_doc(cmd):
     d = dict(DOC)
     for k in ('nfc.clf:TimeoutError', 'nfc.clf:TransmissionError', 'nfc.clf:BrokenLinkError', 'nfc.clf:ProtocolError'):
         d[k] = ['call_raised("%s") != "IOError" or call_errno("%s") == 110' % (cmd, cmd)]
+    # "timeout as TimeoutError, ... other RF errors as TransmissionError": the chip's status 01h is the timeout,
+    # every other status of the exchange is a transmission error (NFC-DEP and the tag layers retry on exactly
+    # these two); the initiator side of the PN53x family reports neither a protocol error nor a broken link
+    d['nfc.clf:TimeoutError'].append('call_raised("%s") != "Chipset.Error" or call_errno("%s") == 1' % (cmd, cmd))
+    d['nfc.clf:TransmissionError'].append('call_raised("%s") != "Chipset.Error" or call_errno("%s") != 1' % (cmd, cmd))
+    d['nfc.clf:ProtocolError'].append('False')
+    d['nfc.clf:BrokenLinkError'].append('False')
     return d
 
 
@@ -235,3 +242,16 @@ for _fn, _cls in (('send_cmd_recv_rsp', 'RemoteTarget'), ('send_rsp_recv_cmd', '
              dict(self=UDEV(), target=UTGT(_cls), data=Opt(Bytes(0, 4, mutable=True)), timeout=Const(0.1)),
              name='C13/udp.' + _fn, bounded='bounded: datagrams of at most 8 octets',
              raises=DOC, loops={('nfc.clf.udp.Device._recv_data', 'While', 0): LoopSpec(invariant=['True'], havoc={'self.rcvd_data': Int(0, None)})})
+
+# NFC-DEP (C04) and ISO-DEP (C12) recover a lost or corrupted frame by NAK/ATN only when the driver reports it as
+# TimeoutError or TransmissionError: the initiator-side exchange contracts of the drivers are obligations of those
+# properties too
+import copy as _copy
+from pyvc.contracts import REGISTRY as _REG
+for _c in list(_REG):
+    if _c.prop == 'C13' and not _c.expect_fail and _c.name.endswith('.send_cmd_recv_rsp') and not _c.bounded:
+        for _prop in ('C04', 'C12'):
+            _c2 = _copy.copy(_c)
+            _c2.prop = _prop
+            _c2.name = _prop + '/driver.' + _c.name.split('/', 1)[1]
+            _REG.append(_c2)
